@@ -407,13 +407,54 @@ func emptyMessagePointer(a reflect.Value) bool {
 	if a.Type().Elem().Kind() != reflect.Struct {
 		return false
 	}
-	x, ok := iface(a)
-	if !ok {
-		return false
+	return !carries(a.Elem(), 0)
+}
+
+// carries reports whether a message value has at least one field through which an explicitly
+// requested zero value can be written: any scalar, string, bytes, byte array, custom message or
+// map field, a non-empty repeated field, a non-nil pointer to a scalar or to a message that
+// carries, or a nested message that carries.  Only messages without such a field encode to
+// nothing when they are present; this is decided from the value's structure, not by asking
+// the library, so a library change that drops more is still reported.
+func carries(v reflect.Value, depth int) bool {
+	if depth > 20 {
+		return true
 	}
-	n := -1
-	core.Guard(func() { n = proto.Size(x) })
-	return n == 0
+	t := v.Type()
+	for i := 0; i < t.NumField(); i++ {
+		if !t.Field(i).IsExported() {
+			continue
+		}
+		f := v.Field(i)
+		ft := f.Type()
+		switch {
+		case ft == ptypes.TMsg || ft == ptypes.TGogo || ft == ptypes.TRaw:
+			return true
+		}
+		switch f.Kind() {
+		case reflect.Slice:
+			if ft.Elem().Kind() == reflect.Uint8 || f.Len() > 0 {
+				return true
+			}
+		case reflect.Pointer:
+			for f.Kind() == reflect.Pointer && !f.IsNil() {
+				f = f.Elem()
+			}
+			if f.Kind() == reflect.Pointer {
+				continue // nil somewhere along the chain
+			}
+			if f.Kind() != reflect.Struct || f.Type() == ptypes.TMsg || f.Type() == ptypes.TGogo || carries(f, depth+1) {
+				return true
+			}
+		case reflect.Struct:
+			if carries(f, depth+1) {
+				return true
+			}
+		default:
+			return true
+		}
+	}
+	return false
 }
 
 // witnessEmptyMsgPtr re-executes the known finding without the normalisation.
